@@ -43,7 +43,7 @@ def run(ctx):
     with open(sub, "w") as f:
         for c in cases:
             f.write(json.dumps(c) + "\n")
-    results = S.run_worker(binary, sub, nsolve, 3, call_timeout=10.0)
+    results = S.run_worker(binary, sub, nsolve, 4, call_timeout=10.0)
     verdicts = collections.Counter()
     names = ["builder(Auto)", "RoocSolver::solve_using(auto_solver)", "PipeRunner(..., AutoSolverPipe)"]
     for i in range(nsolve):
@@ -68,7 +68,27 @@ def run(ctx):
         verdicts[str(ks[1])] += 1
         for k in (0, 2):
             if ks[k] != ks[1]:
-                failures.append({"prop": "C16", "kind": "entry-points-disagree-on-verdict", "class": "unclassified", "text": text,
+                cls = "unclassified"
+                pinned = results.get((i, 3)) or {"status": "missing"}
+                if k == 0 and ks[0][0] == "solver-error" and key(pinned) == ks[1]:
+                    # attribution: the same builder calls with the unused unbounded variables declared Real(0, 0) agree with the text
+                    # the builder keeps declared-but-unused variables; an unused variable without finite bounds makes microlp
+                    # fail on a model it solves without it (finding F19 of C05, seen through the builder)
+                    used = set()
+                    def walk(t):
+                        if isinstance(t, dict):
+                            for kk, vv in t.items():
+                                if kk == "Var":
+                                    used.add(vv)
+                                else:
+                                    walk(vv)
+                        elif isinstance(t, list):
+                            for vv in t:
+                                walk(vv)
+                    walk(c["cons"]); walk(c["obj"] if c["dir"] < 2 else None)
+                    if any(j not in used and d["kind"] in (2, 3) and (d["lo"] is None or d["hi"] is None) for j, d in enumerate(c["decls"])):
+                        cls = "builder-keeps-unused-unbounded-variable"
+                failures.append({"prop": "C16", "kind": "entry-points-disagree-on-verdict", "class": cls, "text": text,
                                  "what": "%s says %s, %s says %s" % (names[k], rs[k], names[1], rs[1])})
         if ks[1][0] != "ok" or any(k[0] != "ok" for k in ks):
             continue
